@@ -3870,7 +3870,11 @@ func (w *Wallet) reliablyPublishTransaction(tx *wire.MsgTx,
 		return nil, err
 	}
 
-	return w.publishTransaction(tx)
+	// Hand the transaction to the backend we subscribed with above. Asking
+	// for the chain client again could fail (the wallet being stopped in
+	// the meantime) after the transaction was recorded, and that failure
+	// would be returned without forgetting the transaction.
+	return w.publishTransactionWith(chainClient, tx)
 }
 
 // publishTransaction attempts to send an unconfirmed transaction to the
@@ -3882,6 +3886,14 @@ func (w *Wallet) publishTransaction(tx *wire.MsgTx) (*chainhash.Hash, error) {
 	if err != nil {
 		return nil, err
 	}
+
+	return w.publishTransactionWith(chainClient, tx)
+}
+
+// publishTransactionWith is publishTransaction for a caller that already holds
+// the chain client to send the transaction to.
+func (w *Wallet) publishTransactionWith(chainClient chain.Interface,
+	tx *wire.MsgTx) (*chainhash.Hash, error) {
 
 	txid := tx.TxHash()
 	_, rpcErr := chainClient.SendRawTransaction(tx, false)
